@@ -16,6 +16,7 @@ RULE = (
     'average on the harness ground truth (unwrapped Cartesian walk).  Non-trivial = at least two atoms with different '
     'final displacement or a non-orthogonal cell, and at least one face crossing; distinct = SHA-1 of the walk.'
 )
+RULE += ' Added in rounds 6-9: result retention; re-query after extend(); a second run of the same shape analysed while the first result is held; atomic-unit and arbitrary time steps.'
 ASSUMPTIONS = [
     'total time is n_frames x time_step (the library\'s documented total_time)',
     'FFT round-off: comparison at rtol 1e-9 of the largest MSD value of the case',
